@@ -1,7 +1,16 @@
 import ChessVerif.Props.C07
+import ChessVerif.Props.C07real
+import ChessVerif.Model.SearchReal
 #print axioms ChessVerif.Props.C07.bufIx_rows_disjoint
 #print axioms ChessVerif.Props.C07.pv_flat_refines_rows
 #print axioms ChessVerif.Props.C07.reported_pv_legal
 #print axioms ChessVerif.Props.C07.bestmove_is_head_of_last_nonempty_pv
 #print axioms ChessVerif.Props.C07.ponder_legal_after_bestmove
 #print axioms ChessVerif.Props.C07.depths_increase_nodes_monotone
+#print axioms ChessVerif.Props.C07real.legalLine_rules
+#print axioms ChessVerif.Props.C07real.reported_pv_legal_real
+#print axioms ChessVerif.Props.C07real.reported_pv_rules
+#print axioms ChessVerif.Props.C07real.bestmove_is_head_of_last_nonempty_pv_real
+#print axioms ChessVerif.Props.C07real.ponder_legal_after_bestmove_real
+#print axioms ChessVerif.Props.C07real.ponder_legal_after_bestmove_rules
+#print axioms ChessVerif.Props.C07real.depths_increase_nodes_monotone_real
